@@ -246,6 +246,66 @@ def apiFinal (cfg : Cfg) : St → List Op → St
   | st, [] => st
   | st, o :: os => apiFinal cfg (apiStep cfg st o).1 os
 
+/-! ### Spill-over and monthly renewal, as the code has them today
+
+A quota may declare the optional `spillover` block (accepted by validation only together with
+`monthly_renewal` on the root of its tree).  `fixedWindow.monthlyRenewal` is never assigned from the
+configuration, so `aligningMonthlyReset` never resets anything.  `quota.Inc` of a quota with the block
+first reads the spill-over credit stored under `<key>_spilloverCount`: a positive credit is used up
+(credit − 1, the request is let through without touching the window counter); otherwise `Inc` proceeds
+as `incLevel`.  No code path ever *adds* to that credit (`quota.Reset`: "TODO: Implement spillover
+reset"), so it is 0 from the start and stays 0: `incLevelFull` below is the code, `incLevelFull_zero`
+says that with credit 0 it is `incLevel` and the credit stays 0.  The rest of the model therefore uses
+`incLevel` for every quota, with or without the block. -/
+
+/-- `quota.Inc` including the spill-over branch; `credit` is the value under `spilloverCountKey`. -/
+def incLevelFull (withSpillover : Bool) (credit : Nat) (mx win : Nat) (l : Lvl) (r : Rid) (t : Nat) (cost : Nat) :
+    (Lvl × IncRes) × Nat :=
+  match l.memo.lookup r with
+  | some _ => ((l, .already), credit)
+  | none =>
+    if withSpillover && decide (0 < credit) then
+      (({ l with memo := (r, some 0) :: l.memo }, .increased), credit - 1)
+    else (incLevel mx win l r t cost, credit)
+
+/-! ### The engine: which quotas keep a live system flow
+
+Every fixed-window quota contributes a `QuotaProcessorInc` to the system flow of its filter
+(`getProcessors`); `Stream.attachSystemFlows` switches that processor off for every quota named by a user
+flow and for all its ancestors (`getQuotaReferences` / `addParentsQuotaReferences`).  The processors that
+stay live run, in the order the quotas were loaded (a root, then the internal limits of its tree in file
+order), before the user flow's Limiter.  All quotas of a case share one filter. -/
+
+/-- Is `a` the quota `q` itself or one of its ancestors? -/
+def inChain (cfg : Cfg) (q a : QId) : Bool := (chain cfg q).any (fun p => p.1 == a)
+
+/-- The root of the tree of `q` (the last element of its chain). -/
+def rootId (cfg : Cfg) (q : QId) : QId :=
+  match (chain cfg q).getLast? with
+  | some p => p.1
+  | none => q
+
+/-- Quotas whose system-flow `QuotaProcessorInc` is live, in execution order, given the quotas named by
+    user flows. -/
+def liveOrder (cfg : Cfg) (refs : List QId) : List QId :=
+  let ids := List.range cfg.quotas.length
+  let roots := ids.filter (fun i => rootId cfg i == i)
+  let order := roots.flatMap (fun rt => ids.filter (fun i => rootId cfg i == rt))
+  order.filter (fun i => !(refs.any (fun q => inChain cfg q i)))
+
+/-- A request through the engine on the URL of quota `q`: the live system-flow increments, then — if a
+    user flow names `q` — the limiter. -/
+def engineOps (cfg : Cfg) (refs : List QId) (q : QId) (r : Rid) (t : Nat) (h : Hdrs) : List Op :=
+  (liveOrder cfg refs).map (fun a => ⟨.inc, a, r, t, h⟩) ++ (if refs.contains q then [⟨.req, q, r, t, h⟩] else [])
+
+/-- State after the request and its verdict (`true` when no user flow, hence no limiter, handles it). -/
+def engineReq (cfg : Cfg) (refs : List QId) (st : St) (q : QId) (r : Rid) (t : Nat) (h : Hdrs) : St × Bool :=
+  let st' := apiFinal cfg st (engineOps cfg refs q r t h)
+  let ans := if refs.contains q then
+      (limiter cfg (apiFinal cfg st ((liveOrder cfg refs).map (fun a => ⟨.inc, a, r, t, h⟩))) q r t h).2
+    else true
+  (st', ans)
+
 /-! ### Interleaving semantics: threads whose atomic steps are the level operations -/
 
 /-- Event of the level API (`quota.Inc/Allowed/Dec` on one `quota` object). -/
